@@ -402,7 +402,9 @@ func c04KeyUse(c *Ctx, rb, rc string, handlers []*ssa.Function) {
 		"server.New":                   "start-up opens tokens before serving",
 		"(*server.Server).openTokens":  "start-up",
 		"(*server.Server).healthCheck": "background ping of every token, no key use",
-		"(*server.Server).pingOne":     "background ping",
+	}
+	if po := healthPinger(p); po != nil {
+		lifecycle[p.FName(po)] = "background ping"
 	}
 	nSinks := 0
 	for _, fn := range serverFns {
